@@ -1,7 +1,7 @@
 (* C10 — Progress after stabilisation: leader elected, logs converge, proposals commit.
    Only pinned statements (generated verbatim from the proof files by
    tools_c10/genprops.py) and non-vacuity Examples; proofs live in M/RaftProofsC10.v,
-   M/RaftProofsC10Pair.v and M/RaftProofsC10Star.v.  The models M/Raft.v, M/Progress.v, M/Inflights.v, M/RaftLog.v
+   M/RaftProofsC10Pair.v, M/RaftProofsC10Star.v and M/RaftProofsC10Prop.v.  The models M/Raft.v, M/Progress.v, M/Inflights.v, M/RaftLog.v
    are taken as given.
 
    WHAT THE PROPERTY SAYS AND WHAT CAN BE A THEOREM.
@@ -164,28 +164,61 @@
       Replicate with a FULL window of stale indexes); sp_run computes the 191 rounds: no
       panic, everybody has the 5 entries and commit index 5.
 
+   8. star_propose_all (M/RaftProofsC10Prop.v): the PROPOSAL clause, at Raft level.  Two
+      steps are added to the schedule: the application steps one MsgPropose with a normal
+      entry into the leader (prop_msg; step_propose: for a leader that tracks itself, has no
+      transfer pending and no uncommitted-size limit, Raft::step appends the stamped entry
+      and runs bcast_append), and the leader PERSISTS its unstable entries - what the
+      application does with the Ready that carries them - persist_leader =
+      MemStorage::append, RaftLog::stable_entries, Raft::on_persist_entries (the three model
+      functions, in that order; propose_persist_parts decomposes the two steps and shows
+      the log keeps its representation invariant; on_persist_own: the leader's own Progress
+      gets matched = last_index + 1).  The followers' persistence is abstracted as in the
+      pair theorem.
+      star_propose_all: a star that starts as in star_convergence runs its N0 rounds and
+      reaches a converged state in which, in addition (all stated as hypotheses on that
+      state): the leader's log is well formed with no pending snapshot, it has no
+      uncommitted-size limit, its own matched = last_index, EVERY FOLLOWER'S LOG ENDS AT
+      THE LEADER'S LAST INDEX (it holds nothing above it - true of a converged follower
+      whose last_index equals the leader's; without it an old entry above last_index could
+      sit where the new one goes, and the agreement invariant says nothing about it), the
+      voters are the leader and some followers, at least one follower is a voter (so that
+      the all-voters form of the quorum argument applies: the commit happens when the last
+      voter acknowledges).  After propose + persist and N1 + K more star rounds
+      (N1 = (heartbeat_timeout + 2) * pair_measure_bound (last_index + 1) matched0 for every
+      follower, K >= heartbeat_timeout + 1): committed L = last_index + 1, and for every
+      follower matched = last_index + 1, its log agrees with the leader's NEW log up to
+      last_index + 1 (same term at the new index) and its commit index is last_index + 1.
+      The invariant form (from any state satisfying the star invariant) is star_propose in
+      the proof file.  Agreement is on (index, term); that the DATA of the entry is the
+      proposed one follows from Raft's Log Matching and is shown on the example only.
+      Non-vacuity: C10_propose_applies instantiates every hypothesis on the 3-node star
+      after its 191 rounds; C10_propose_run computes propose + persist + 251 rounds: entry 6
+      with data [42] is in all three logs and committed everywhere.
+      HAND-OUT (remark, not re-proved here): once the commit index has moved, RawNode::ready
+      hands the application exactly the committed, persisted, not yet applied entries
+      (C07_handout_range, C07_handout_abs, C07_handout_persisted_only, C07_handout_bound),
+      so the new entry is handed out on every member at its next Ready.
+
    NOT PROVED (beyond the items marked above).
    * the probabilistic clause: eventually exactly one leader (see top);
    * whole-cluster convergence BEYOND the star: the followers only talk to the leader
-     (no second leader, no candidate, no message between followers), L's own log must
-     already be persisted (own matched = last_index) for the commit clause;
-   * "a newly proposed entry is committed and handed to the application on every running
-     member": no proposal arrives during the star run.  Not done because (a) after a
-     proposal the leader's own matched lags until on_persist_entries, so the commit needs the
-     MAJORITY form of the quorum argument (only the all-voters form is proved), and the
-     persistence step lives at RawNode level; (b) a follower may still hold old entries
-     ABOVE the leader's former last index, about which the agreement invariant says nothing.
-     Application hand-over (commit_apply / Ready) is not modelled in the schedule;
+     (no second leader, no candidate, no message between followers);
+   * the proposal clause with a majority only (a voter that never answers): the commit
+     argument used is the all-voters form; with several proposals in flight; with an
+     uncommitted-size limit; with conf-change entries; the equality of the entry DATA on
+     the followers (only index and term are tracked); the RawNode-level schedule
+     (Ready / persist / advance / apply) - the hand-out is cited from C07, not composed
+     with the run;
    * the pair / star theorems with messages already in flight at the start, with
      batch_append, with check_quorum, with pending read-index requests, with a compacted
-     leader log (snapshot path inside the run), with a pending window shrink; RawNode-level
-     (Ready / persist / advance) scheduling;
+     leader log (snapshot path inside the run), with a pending window shrink;
    * "within a bounded number of ELECTION timeouts": the bounds are in rounds (ticks),
      quadratic in last_index; no attempt at the tight bound. *)
 From RV Require Import Base.Prelude Base.IdSet M.Util M.Proto M.MemStorage M.MemStorageProofs
   M.Inflights M.InflightsProofs M.Progress M.RaftLog M.RaftLogProofs M.Quorum M.ConfChange
   M.Msg M.Raft M.RaftProofs M.RaftProofsC15 M.RaftProofsC09 M.RaftProofsC10 M.RaftProofsC10Pair
-  M.RaftProofsC10Star.
+  M.RaftProofsC10Star M.RaftProofsC10Prop.
 From RV Require M.QuorumProofs.
 From RecordUpdate Require Import RecordSet.
 Import RecordSetNotations.
